@@ -3,13 +3,13 @@ module verif/harness
 go 1.23
 
 require (
+	github.com/VividCortex/ewma v1.2.0
 	github.com/anishathalye/porcupine v1.3.0
 	github.com/vbauerster/mpb/v8 v8.0.0
 	golang.org/x/sys v0.30.0
 )
 
 require (
-	github.com/VividCortex/ewma v1.2.0 // indirect
 	github.com/acarl005/stripansi v0.0.0-20180116102854-5a71ef0e047d // indirect
 	github.com/mattn/go-runewidth v0.0.16 // indirect
 	github.com/rivo/uniseg v0.4.7 // indirect
